@@ -119,7 +119,18 @@ func New(maxConcurrent int, chQqueueSize int, v ...interface{}) *TaskPool {
 					tp.caller(f)
 				}
 			case <-tp.chClose:
-				return
+				// run what was queued before Stop; no worker may be
+				// left to pick it up.
+				for {
+					select {
+					case f := <-tp.chQqueue:
+						if f != nil {
+							tp.caller(f)
+						}
+					default:
+						return
+					}
+				}
 			}
 		}
 	}()
